@@ -78,6 +78,14 @@ def make_arg(torch, x, ik):
     raise ValueError(ik)
 
 
+def full_state(m):
+    """Parameters and ALL buffers (persistent or not) - what a call must leave unchanged in eval mode."""
+    d = {k: v for k, v in m.state_dict().items()}
+    for k, v in m.named_buffers():
+        d.setdefault(k, v)
+    return d
+
+
 def snap(ts):
     return [(t.detach().clone(), t._version) for t in ts]
 
@@ -164,7 +172,7 @@ class SessionDriver:
             fn = lambda: f(n, context=c) if c is not None else f(n)
         watch = w1 + w2
         s0 = snap(watch)
-        sd0 = {k: v.detach().clone() for k, v in m.state_dict().items()}
+        sd0 = {k: v.detach().clone() for k, v in full_state(m).items()}
         torch.manual_seed(4242)
         raised = "none"
         out = None
@@ -174,12 +182,12 @@ class SessionDriver:
             raised = type(ex).__name__
             self.exc = repr(ex)[:200]
         args_changed = changed(watch, s0)
-        sd1 = m.state_dict()
+        sd1 = full_state(m)
         writes = set()
         if set(sd1.keys()) != set(sd0.keys()):
             writes.add("other:keys")
         for k, v in sd1.items():
-            if k in sd0 and (v.shape != sd0[k].shape or not torch.allclose(v.detach(), sd0[k], rtol=0, atol=0, equal_nan=True)):
+            if k in sd0 and (v.shape != sd0[k].shape or v.dtype != sd0[k].dtype or not torch.allclose(v.detach(), sd0[k], rtol=0, atol=0, equal_nan=True)):
                 writes.add(categorize(k, self.anp))
         key = (op, ik)
         if raised != "none":
@@ -229,6 +237,13 @@ class SessionDriver:
         e = self.e
         was = m.training
         m.eval()
+        # compare like with like: the cached log-det of a linear transform is computed by a different
+        # (1-ulp different) formula depending on whether forward or inverse filled the cache first
+        from nflows.transforms.linear import Linear
+
+        for mod in m.modules():
+            if isinstance(mod, Linear):
+                mod.cache.invalidate()
         outs = []
         try:
             with torch.no_grad():
@@ -262,7 +277,10 @@ class SessionDriver:
         sd = {k: v.detach().clone() for k, v in m.state_dict().items()}
         before = self.probe(m)
         self.reloads += 1
-        m2 = self.e.build(self.seed + 1000 * self.reloads + 17)  # other constructor draws, other parameters
+        # other constructor draws, other parameters, other values of buffer-backed constructor arguments
+        m2 = self.e.build(self.seed + 1000 * self.reloads + 17, alt=True)
+        if self.reloads % 2 == 0:
+            m2.eval()   # users also switch a fresh model to evaluation mode BEFORE loading
         keys_match = set(m2.state_dict().keys()) == set(sd.keys())
         err = None
         try:
